@@ -495,16 +495,33 @@ func ruleR36_1(c *Check) {
 	r.Check(okp, rt, "oracle.readTs refuses managed mode", nil, "readTs no longer panics when isManaged")
 	cp := w.F("badger.Txn.commitPrecheck")
 	okz := false
-	cp.walk(func(n ast.Node) bool {
-		if is, ok := n.(*ast.IfStmt); ok && w.mentions(is.Cond, cts) && w.mentions(is.Cond, w.Field("badger.Options.managedTxns")) {
-			for _, p := range flatten(is.Cond, token.LAND) {
-				if eqOf(Guard{Cond: p, Val: true}, true, w.isField(cts), w.isConst(0)) {
-					okz = w.terminates(is.Body.List)
-				}
+	// an error return taken under managedTxns && commitTs == 0 (whatever the spelling: inline
+	// condition, named condition, nested ifs)
+	for _, e := range cp.allExits() {
+		rs, ok := e.Node.(*ast.ReturnStmt)
+		if !ok || len(rs.Results) != 1 {
+			continue
+		}
+		if id, isId := unparen(rs.Results[0]).(*ast.Ident); isId && id.Name == "nil" {
+			continue
+		}
+		gs := w.Guards(cp, rs)
+		zero, managed := false, false
+		for _, g := range gs {
+			if g.Implicit {
+				continue
+			}
+			if eqOf(g, true, w.isField(cts), w.isConst(0)) {
+				zero = true
+			}
+			if w.fieldOf(g.Cond) == w.Field("badger.Options.managedTxns") && g.Val {
+				managed = true
 			}
 		}
-		return true
-	})
+		if zero && managed {
+			okz = true
+		}
+	}
 	r.Check(okz, cp, "zero commit timestamp rejected when markers would be written", nil, "commitPrecheck no longer rejects commitTs == 0 in managed mode")
 }
 
@@ -659,7 +676,23 @@ func ruleR11_1(c *Check) {
 	r.Exists(n == 1, f, "write loop start", nil, "Open no longer starts doWrites")
 	// the watermark arguments are the initial timestamp
 	for _, s := range f.Sites(selOr(selCallOn(done, tm), selCallOn(done, rm))) {
-		r.Check(w.fieldOf(s.(*ast.CallExpr).Args[0]) == next, f, "watermark marked done at the initial timestamp", s, "argument is "+short(w, s.(*ast.CallExpr).Args[0]))
+		// (a local copy of nextTxnTs taken after the initialisation and before the increment counts:
+		// R11.1's order clauses above pin the marks between the two)
+		arg := s.(*ast.CallExpr).Args[0]
+		okArg := w.fieldOf(arg) == next
+		if id, isId := unparen(arg).(*ast.Ident); isId && !okArg {
+			if v, isVar := w.Use(id).(*types.Var); isVar {
+				if defs := w.DefsOf(f, v); len(defs) == 1 && w.fieldOf(defs[0]) == next {
+					okArg = true
+					// the copy is taken after the initialising store and before the increment
+					for _, st := range f.Sites(selStoreVar(v)) {
+						r.DomAll(f, "copy of nextTxnTs taken after initialisation", selNode(st), 0, store, 0)
+						r.NeverAfterAll(f, "copy of nextTxnTs taken before the increment", inc, 0, selNode(st), 0)
+					}
+				}
+			}
+		}
+		r.Check(okArg, f, "watermark marked done at the initial timestamp", s, "argument is "+short(w, arg))
 	}
 }
 
